@@ -144,7 +144,7 @@ def dset {α} : Dict α → Text → α → Dict α
 /-! ## utils.py: `resolve_sheet` (the regular expression `SHEET_TITLE`, hand model) -/
 
 /-- The text after an opening apostrophe is `m ++ "'"` with `m ∈ ([^']|'')*`; returns `m`
-    (doubled apostrophes are NOT reduced: `group("quoted")` is the raw text). -/
+    (`group("quoted")`, the raw text). -/
 def quotedBody : Text → Option Text
   | [] => none
   | ['\''] => some []
@@ -152,15 +152,22 @@ def quotedBody : Text → Option Text
   | '\'' :: _ => none
   | c :: r => (quotedBody r).map fun m => c :: m
 
+/-- `quoted.replace("''", "'")` (left to right, non-overlapping) -/
+def undouble : Text → Text
+  | '\'' :: '\'' :: r => '\'' :: undouble r
+  | c :: r => c :: undouble r
+  | [] => []
+
 /-- `resolve_sheet(sheet_str)` for a `sheet_str` without `!`.  `none` = Python `None`
-    (`'' or None` for the title `''`). When the expression does not match, and also when its unquoted
-    alternative matches, the result is the stripped string itself. -/
+    (the title `''`: `quoted` is empty, hence falsy, and `group("notquoted")` is `None`).  When the
+    expression does not match, and also when its unquoted alternative matches, the result is the
+    stripped string itself. -/
 def resolveSheet (sheetStr : Text) : Option Text :=
   let s := strip sheetStr
   match s with
   | '\'' :: rest =>
     match quotedBody rest with
-    | some m => if m = [] then none else some m
+    | some m => if m = [] then none else some (undouble m)
     | none => some s
   | _ => some s
 
@@ -573,13 +580,17 @@ def readCells (defaultSheet : Text) : List (Text × Item) → Dict Cell → Out 
           (dset cells cellAddress ⟨.blank, some ⟨sheetName, tokens, formulaTerms sheetName tokens, tokens⟩⟩)
     | _ => .crash .valueError
 
+/-- the address a defined name's text stands for in `build_defined_names`: `$` removed, and when
+    there is exactly one `!`, the sheet part resolved (`f'{None}!…'` prints `None`) -/
+def nameAddress (text : Text) : Text :=
+  let cellAddress := removeChar '$' text
+  match splitOn '!' cellAddress with
+  | [sheetStr, coord] => (resolveSheet sheetStr).getD "None".toList ++ ['!'] ++ coord
+  | _ => cellAddress
+
 /-- one defined name of `build_defined_names` -/
 def defineName (wb : Wb) (name text : Text) : Out Wb :=
-  let cellAddress := removeChar '$' text
-  let cellAddress :=
-    match splitOn '!' cellAddress with
-    | [sheetStr, coord] => (resolveSheet sheetStr).getD "None".toList ++ ['!'] ++ coord
-    | _ => cellAddress
+  let cellAddress := nameAddress text
   if !has ':' cellAddress then
     if dhas wb.cells cellAddress then .val { wb with names := dset wb.names name (.cell cellAddress) }
     else .val wb                                    -- "refers to empty cell … not being loaded"
@@ -708,7 +719,10 @@ def sumTerm : S → Rat
 def cSum : V → V
   | .s (.err c) => .s (.err c)
   | .s x => .s (.num (.flt (sumTerm x)))
-  | .arr m => .s (.num (.flt ((m.flatten.map sumTerm).foldl (· + ·) 0)))
+  | .arr m =>
+    match m.flatten.find? fun x => match x with | .err _ => true | _ => false with
+    | some e => .s e
+    | none => .s (.num (.flt ((m.flatten.map sumTerm).foldl (· + ·) 0)))
 
 def cCountA : V → V
   | .s x => .s (.num (.int (if isEmptyS x then 0 else 1)))
